@@ -1,6 +1,6 @@
 (* C17 — suggestions heal: certifying what is suggested makes vet pass. *)
 Require Import Base Extracted Criteria Search AuditGraph DepGraph Resolve Show Suggest.
-Require Import ResolveProofs SuggestProofs.
+Require Import CriteriaProofs ResolveProofs ResolveTheorems SuggestProofs SuggestHeal Witness.
 Local Open Scope N_scope.
 
 (* the pair (from, to) that suggest_delta picks lies, for EVERY failed criterion of
@@ -32,10 +32,39 @@ Proof.
   intros a b rest H. cbn [dedup_items]. rewrite H. eexists. split; [reflexivity|]. reflexivity.
 Qed.
 
-(* PARTIAL: "once EVERY proposed audit is certified vet succeeds" (all crates at once,
-   through the resolver) is exercised on the implementation by applying the suggestions
-   and re-resolving; proved here is the per-crate, per-criterion core. *)
+(* The whole statement, through the resolver: when vet fails for missing audits and every failing
+   crate got a proposal, certifying EVERY proposed audit (the proposed delta, for the minimal names of
+   the proposed criteria) makes vet succeed — unless one of the new audits collides with a violation
+   entry (the property's own exception).  All graphs, all stores with an acyclic criteria table, all
+   diffstat oracles.  [apply_items] adds, per proposal, one local audit to the crate's store. *)
+Theorem C17_certifying_every_suggestion_makes_vet_pass :
+  forall dcount has_sources inp s fs,
+    (forall c, ~ reachp (st_criteria s) c c) ->
+    r_conclusion (resolve inp s) = FailForVet fs ->
+    (forall i cf, In (i, cf) fs -> item_for dcount has_sources (resolve inp s) i cf <> []) ->
+    let s' := apply_items s (compute_suggest dcount has_sources (resolve inp s)) in
+    (forall i p, pkg_at inp s i p -> pk_third_party p = true ->
+       violation_conflicts (st_criteria s) (store_for s' (pk_name p)) = []) ->
+    has_errors (resolve inp s') = false.
+Proof.
+  intros dcount has_sources inp s fs Hac Hc Hall s' Hnv.
+  destruct (suggestions_heal dcount has_sources inp s Hac fs Hc Hall Hnv) as [a [b [c0 H]]].
+  unfold has_errors. fold s' in H. rewrite H. reflexivity.
+Qed.
+
+(* the premises are satisfiable and the conclusion is not trivial: the failing witness store gets
+   one proposal, and the healed store passes *)
+Definition w_dc (_ : ver) (_ : N) : N := 1.
+Definition w_hs (_ _ _ : N) : bool := true.
+Example C17_nonvacuous :
+  (exists fs, r_conclusion (resolve w_graph w_store_failing) = FailForVet fs /\
+     forallb (fun '(i, cf) => negb (match item_for w_dc w_hs (resolve w_graph w_store_failing) i cf with [] => true | _ => false end)) fs = true) /\
+  (length (compute_suggest w_dc w_hs (resolve w_graph w_store_failing)) = 1%nat) /\
+  (has_errors (resolve w_graph w_store_failing) = true) /\
+  (has_errors (resolve w_graph (apply_items w_store_failing (compute_suggest w_dc w_hs (resolve w_graph w_store_failing)))) = false).
+Proof. vm_compute. split; [eexists; split; reflexivity|auto]. Qed.
 
 Print Assumptions C17_suggested_pair_is_common.
 Print Assumptions C17_candidate_heals.
 Print Assumptions C17_dedup_keeps_all_criteria.
+Print Assumptions C17_certifying_every_suggestion_makes_vet_pass.
